@@ -74,6 +74,22 @@ add("C16", True, "exploration",
     "significant bits are outside the round-trip clause by necessity.",
     "DESIGN.md section 5, C16")
 
+add("C04", True, "exploration",
+    "Hypothesis-generated tables over few active key bits, oracle = "
+    "exhaustive first-match comparison of every key + differential "
+    "consistency of the failure report",
+    "Orthogonal, generality-ordered and freely ordered tables are minimised "
+    "by default-route removal, ordered covering, minimise_table with every "
+    "method subset/order and minimise_tables over several chips; the result "
+    "is compared with the original under first-match semantics for all "
+    "2^active key assignments (route equal and sources included, or "
+    "default-routable and unmatched); length, target and the "
+    "MinimisationFailedError fields are checked against a run without "
+    "target.",
+    "Trusted: vf/oracle/firstmatch.py. '!' key bits excluded; more than 10 "
+    "active bits not explored.",
+    "DESIGN.md section 5, C04")
+
 
 def main():
     checks = []
